@@ -141,7 +141,9 @@ def run(facts, rep, tier):
     from ..effects import display_only_fields
     donly = display_only_fields(facts, eff, "AppCounters")
     def _pure_presentation(e):
-        return ("stdout",) in e and all(x[0] in ("stdout", "iowrite") or (x[0] == "field" and x[1].split("::")[-1] == "AppCounters") for x in e)
+        # prints, and touches neither the table nor a row (fields of the counters or of a session struct holding them are what
+        # this rule is about)
+        return ("stdout",) in e and all(x[0] in ("stdout", "iowrite") or (x[0] == "field" and x[1].split("::")[-1] not in ("Plane", "Planes")) for x in e)
     printers = [nm for nm in eff.trans if _pure_presentation(eff.of(nm))]
     pres_written = set()
     for nm in printers:
